@@ -71,39 +71,66 @@ def map_offset(off, frames_model, frames_conc):
 
 
 def replay_recv_path(run, g, path, scale, sd):
-    from yowsup.layers.noise.layer_noise_segments import YowNoiseSegmentsLayer
+    from yowsup.layers import YowLayerEvent
+    from yowsup.layers.network.layer import YowNetworkLayer
     init, steps = g.path_steps(path)
     seg, top, bot, st = make_layer(True)
     frames_m, frames_c = [], []
     delivered_m = 0
     delivered_c = 0
     trail = []
+
+    def down_event():
+        seg.onEvent(YowLayerEvent(YowNetworkLayer.EVENT_STATE_DISCONNECTED, reason="verif"))
     for act, to in steps:
         trail.append(act)
         if act["name"] == "PeerSend":
             frames_m.append(act["frame"])
             frames_c.append(payload(len(frames_c), act["frame"], scale, sd))
             continue
-        if act["name"] != "Deliver":
+        if act["name"] == "ConnLost":
+            down_event()
+        elif act["name"] in ("Deliver", "DeliverLost"):
+            stream_c = b"".join(len(f).to_bytes(3, "big") + f for f in frames_c)
+            new_m = delivered_m + act["n"]
+            new_c = map_offset(new_m, frames_m, frames_c)
+            if new_c <= delivered_c:
+                new_c = delivered_c + 1
+            chunk = stream_c[delivered_c:new_c]
+            if act["name"] == "DeliverLost":
+                # a layer above closes the connection while the j-th frame of this call is handed to it
+                count = {"n": 0}
+                orig = top.receive
+
+                def receive(data, orig=orig, count=count, j=act["j"]):
+                    orig(data)
+                    count["n"] += 1
+                    if count["n"] == j:
+                        down_event()
+                top.receive = receive
+            try:
+                seg.receive(chunk)
+                err = None
+            except Exception as e:
+                err = repr(e)
+            finally:
+                if act["name"] == "DeliverLost":
+                    top.receive = orig
+            delivered_m, delivered_c = new_m, new_c
+        else:
             continue
-        stream_c = b"".join(len(f).to_bytes(3, "big") + f for f in frames_c)
-        new_m = delivered_m + act["n"]
-        new_c = map_offset(new_m, frames_m, frames_c)
-        if new_c <= delivered_c:
-            new_c = delivered_c + 1
-        chunk = stream_c[delivered_c:new_c]
-        try:
-            seg.receive(chunk)
-            err = None
-        except Exception as e:
-            err = repr(e)
-        delivered_m, delivered_c = new_m, new_c
         expect = frames_c[:len(to["up"])]
         got = list(top.got_up)
+        if act["name"] != "Deliver":
+            # the frames that were never handed up are gone with the connection
+            err = None if act["name"] == "ConnLost" else err
+            frames_m, frames_c = frames_m[:len(to["up"])], frames_c[:len(to["up"])]
+            delivered_m = sum(3 + len(f) for f in frames_m)
+            delivered_c = sum(3 + len(f) for f in frames_c)
         if err or got != expect or any(type(x) is not bytes for x in got):
             desc = "after %s expected %d frames up %s, got %s err=%s" % (
                 act, len(expect), [len(x) for x in expect], [len(x) if hasattr(x, '__len__') else x for x in got], err)
-            run.violation("recv:" + ("exception" if err else "frames-differ"), desc,
+            run.violation("recv:" + ("exception" if err else "frames-differ") + (":after-connection-loss" if any(a["name"] in ("ConnLost", "DeliverLost") for a in trail) else ""), desc,
                           {"kind": "recv", "scale": scale, "seed": sd, "actions": trail})
             return False
     return True
@@ -258,6 +285,26 @@ def run():
             replay_recv_path(r, g, p, rng.choice(SCALES), core.seed())
             r.case((tuple(p), "w"))
             r.cov["traces_validated_against_impl"] += 1
+    # 2b. the same with a connection loss between or during receive() calls (a partial frame never leaks into the next connection)
+    loss = core.must_clean(core.tlc("Segments", "MC_Segments_loss.cfg", r.scratch, workers=8), "MC_Segments_loss")
+    r.add_tlc(loss)
+    bad = core.tlc("Segments", "MC_Segments_loss_asread.cfg", r.scratch, workers=4)
+    if not bad.violated:
+        raise core.MachineryError("self-test: keeping the read buffer across a connection loss violates nothing in Segments.tla")
+    r.notes["selftest_asread_switch_violates"] = bad.violated[:2]
+    el = core.tlc("Segments", "Edges_Segments_loss.cfg", r.scratch, workers=1)
+    gl = core.Graph(el.printed())
+    lpaths = [p for p in gl.transition_cover(rng) if any(gl.edges[i][1]["name"] in ("ConnLost", "DeliverLost") for i in p)]
+    if len(lpaths) < 50:
+        raise core.MachineryError("too few connection-loss behaviours (%d)" % len(lpaths))
+    if not thorough and len(lpaths) > 1500:
+        lpaths = rng.sample(lpaths, 1500)
+    for pi, p in enumerate(lpaths):
+        for si, sc in enumerate(SCALES[:3] if thorough else (SCALES[pi % 3],)):
+            replay_recv_path(r, gl, p, sc, core.seed())
+            r.case(("loss", tuple(p), si))
+            r.cov["traces_validated_against_impl"] += 1
+    r.notes["connection_loss_behaviours"] = len(lpaths)
     es = core.tlc("Segments", "Edges_Segments_send.cfg", r.scratch, workers=1)
     gs = core.Graph(es.printed())
     spaths = gs.transition_cover(rng)
